@@ -55,6 +55,17 @@ def scenarios(thorough):
         out.append(cc.mk([P(1)], lookahead=1, room=10, extra_client=[["read", 5], [how]], second=other(), drains=False,
                          apps={1: {"chunks": [40, 40, 40], "cl": "none"}}, adj={"outbuf_high_watermark": 30},
                          name="producer over watermark, lookahead=1, client %s" % how))
+    # urgent data and the end of the stream in the same round (select: exceptional set; poll: POLLPRI)
+    for use_poll in (False, True):
+        out.append(cc.mk([P(1)], workers=1, extra_client=[["oob"], ["close"]], second=other(), use_poll=use_poll, drains=False,
+                         name="urgent byte then close after the response (%s)" % ("poll" if use_poll else "select")))
+        out.append(cc.mk([{"k": 1, "kind": "partial"}], workers=1, extra_client=[["oob"], ["close"]], second=other(), use_poll=use_poll, drains=False,
+                         name="urgent byte then close in mid-request (%s)" % ("poll" if use_poll else "select")))
+    # the I/O thread's own flush fails while the producer is parked (the reader takes bytes only after the producer was blocked)
+    for e in (errno.EINVAL, errno.ETIMEDOUT):
+        out.append(cc.mk([P(1)], room=10, extra_client=[["read_after_block", 2, 20]], second=other(), drains=False,
+                         faults={"send": [None] * 3 + [e]}, apps={1: {"chunks": [40, 40, 40], "cl": "none"}},
+                         adj={"outbuf_high_watermark": 30}, name="producer parked, the I/O thread's send#4 fails %s" % errno.errorcode[e]))
     # faults while the connection is being set up
     for op in ("getsockopt", "setsockopt", "setblocking"):
         for e in (errno.EINVAL, errno.ECONNRESET, errno.EBADF):
